@@ -498,6 +498,12 @@ class CallMixin:
                         return self.bind(code, rty, k, "o")
                     return k("(" + code + ")" if ptys else code, rty)
                 return self.exprs(e.args, env, fin)
+            if isinstance(t, TBuilder):
+                ob = self.reg.builders[t.cls].get("observers", {}).get(f.attr)
+                if ob is None or e.args or e.keywords:
+                    raise Unsupported("method {} of a {} under construction".format(f.attr, t.cls))
+                template, oty = ob
+                return k(template.format(c=c), oty)
             if isinstance(t, (TList, TTuple, TRange)) and f.attr == "index":
                 self.args_no_kw(e, 1)
                 return self.as_list(c, t, lambda l, el: self.expr(e.args[0], env, lambda a, ta: self.bind(
